@@ -616,6 +616,9 @@ set_iand(Bucket* self, PyObject* other)
     PyObject* v = NULL;
     PyObject* result = NULL;
     PyObject* tmp_list = NULL;
+    PyObject* ours = NULL;
+    Bucket* keep = NULL;
+    Py_ssize_t i;
     int contained = 0;
 
     tmp_list = PyList_New(0);
@@ -664,14 +667,31 @@ set_iand(Bucket* self, PyObject* other)
         }
     }
 
-    /* Replace our contents with the list of keys we built. */
-    v = bucket_clear(self, NULL);
-    if (v == NULL) {
+    /* Drop the keys that did not survive, in place.  (The set used to be
+     * cleared and refilled from the list: running out of memory while
+     * refilling cost it everything it held.)  Whatever has to be allocated
+     * is allocated before the first key is removed.
+     */
+    keep = BUCKET(PyObject_CallObject(OBJECT(&SetType), NULL));
+    if (keep == NULL) {
         goto err;
     }
-    Py_DECREF(v);
-    if (_Set_update(self, tmp_list) < 0) {
+    if (_Set_update(keep, tmp_list) < 0) {
         goto err;
+    }
+    ours = PySequence_List((PyObject*)self);
+    if (ours == NULL) {
+        goto err;
+    }
+    for (i = 0; i < PyList_GET_SIZE(ours); i++) {
+        v = PyList_GET_ITEM(ours, i);  /* borrowed */
+        contained = bucket_contains(keep, v);
+        if (contained == -1) {
+            goto err;
+        }
+        if (contained == 0 && _bucket_set(self, v, NULL, 0, 1, 0) < 0) {
+            goto err;
+        }
     }
 
     Py_INCREF(self);
@@ -680,6 +700,8 @@ set_iand(Bucket* self, PyObject* other)
 err:
     Py_DECREF(iter);
     Py_DECREF(tmp_list);
+    Py_XDECREF(keep);
+    Py_XDECREF(ours);
 
     return result;
 }
